@@ -43,6 +43,11 @@ func UploadLookupFile(ctx *fasthttp.RequestCtx) {
 		ctx.Error("File name is required", fasthttp.StatusBadRequest)
 		return
 	}
+	if !utils.IsSimpleFileName(fileName) {
+		log.Errorf("UploadLookupFile: Invalid file name: %v", fileName)
+		ctx.Error("Invalid file name", fasthttp.StatusBadRequest)
+		return
+	}
 
 	fileHeader, err := ctx.FormFile("file")
 	if err != nil {
